@@ -34,6 +34,51 @@ def find_loop(target_name, iter_name):
     return m, c, fn, hits[0]
 
 
+def _keyerr(I_, k_):
+    raise I_.exc('KeyError', k_)
+
+
+def _sets(I, v):
+    """the property sets held by a stored entry, whether it is the loader's mapping or a dict made from it"""
+    if isinstance(v, dict):
+        return dict(v)
+    if isinstance(v, Obj) and v.cls.name == 'LoadedSets':
+        return {'thermochem': ('corr', v.fields['entry'][1])}
+    return {}
+
+
+def replay_empty_entry(model, state, ob):
+    """a group listed without any property set in the including file, its data in the included file"""
+    import os, shutil, tempfile
+    import pgradd.ThermoChem  # noqa
+    from pgradd.GroupAdd.Library import GroupLibrary
+    from . import real
+    tmp = tempfile.mkdtemp(prefix='pyvc_c13_')
+    res = {}
+    try:
+        data = "groups:\n    'C(C)(H)3':\n        thermochem: !ThermochemGroup\n            T_ref: 298.15 K\n            ND_H_ref: -17.25\n"
+        open(os.path.join(tmp, 'data.yaml'), 'w').write(data)
+        open(os.path.join(tmp, 'empty.yaml'), 'w').write("groups:\n    'C(C)(H)3': {}\n")
+        open(os.path.join(tmp, 'nested.yaml'), 'w').write("include: [data.yaml]\ngroups:\n    'C(C)(H)3': {}\n")
+        open(os.path.join(tmp, 'flat.yaml'), 'w').write("include: [empty.yaml, data.yaml]\n")
+        sch = real.load('BensonGA').scheme
+        for nm in ('nested', 'flat'):
+            try:
+                with real.quiet():
+                    lib = GroupLibrary._Load(os.path.join(tmp, nm + '.yaml'), sch)
+                res[nm] = 'H=%r' % lib['C(C)(H)3']['thermochem'].ND_H_ref
+            except Exception as e:    # noqa
+                res[nm] = 'raised %s: %s' % (type(e).__name__, str(e)[:80])
+    finally:
+        shutil.rmtree(tmp, ignore_errors=True)
+    return {'failed': res.get('nested') != res.get('flat') or 'raised' in str(res.get('nested')),
+            'input': "library.yaml = {include: [data.yaml], groups: {'C(C)(H)3': {}}} (data.yaml gives H for that group) vs the same two pieces as siblings under an index file",
+            'observed': res, 'expected': 'the same library for both nestings'}
+
+
+replay_empty_entry.model_free = True
+
+
 def u_read_groups(which):
     def run(I):
         ctx = I.ctx
@@ -56,9 +101,18 @@ def u_read_groups(which):
         W_.ctor_hooks['Descriptor'] = lambda I_, cls_, a, k: mkgroup(I_, a, k)
         loads = []
 
+        # what the property-set loader returns is the schema loader's READ-ONLY mapping (yaml_io.schema.AnonymousClass: a collections.abc.Mapping with
+        # __contains__ / __iter__ / __getitem__ / __len__ and no __setitem__) -- not a dict
+        LS = BuiltinClass('LoadedSets')
+
+        def ls_setitem(I_, o_, k_, v_):
+            raise I_.exc('TypeError', "'AnonymousClass' object does not support item assignment")
+        W_.abstract['LoadedSets'] = {'contains': lambda I_, o_, k_: k_ == 'thermochem', 'index': lambda I_, o_, k_: ('corr', o_.fields['entry'][1]) if k_ == 'thermochem' else _keyerr(I_, k_),
+                                     'iter': lambda I_, o_: ['thermochem'], 'setitem': ls_setitem, 'mapping_keys': lambda I_, o_: ['thermochem']}
+
         def yload(I_, a, k):
             loads.append((a[0], k.get('loader')))
-            return ('property-sets-of', a[0])
+            return Obj(LS, {'entry': a[0]}, 'fresh')
         yio = Namespace('yaml_io', {'load': Builtin('yaml_io.load', yload)})
         data = {'spelling one': ('entry', 1), 'spelling two': ('entry', 2)}
         lib_contents = {}
@@ -73,10 +127,12 @@ def u_read_groups(which):
             out = Outcome('raise', e.obj)
         check_outcome(I, out, raises={'KeyError': z3.BoolVal(same)}, returns=lambda r: [
             ('every entry is stored under the group its name denotes, with the data read from that entry by the property-set loader',
-             z3.BoolVal(len(lib_contents) == 2 and sorted(v[1][1] for v in lib_contents.values()) == [1, 2]
-                        and all(ld == ('the-loader',) for _, ld in loads) and [d for d, _ in loads] == [('entry', 1), ('entry', 2)]))])
+             z3.BoolVal(len(lib_contents) == 2 and sorted(_sets(I, v).get('thermochem', (None, None))[1] for v in lib_contents.values()) == [1, 2]
+                        and all(ld == ('the-loader',) for _, ld in loads) and [d for d, _ in loads] == [('entry', 1), ('entry', 2)])),
+            ('the property sets of a group are held in a mutable mapping of the library\'s own (Update adds the property sets of an included file to it: the loader\'s '
+             'read-only mapping cannot take them)', z3.BoolVal(all(isinstance(v, dict) for v in lib_contents.values())))])
         if out.kind == 'raise' and out.value.cls.name == 'KeyError':
-            ctx.oblige('the duplicate is rejected before its data replace the first definition', z3.BoolVal(len(lib_contents) == 1 and list(lib_contents.values()) == [('property-sets-of', ('entry', 1))]))
+            ctx.oblige('the duplicate is rejected before its data replace the first definition', z3.BoolVal(len(lib_contents) == 1 and [_sets(I, v) for v in lib_contents.values()] == [{'thermochem': ('corr', 1)}]))
         return {'inputs': {}}
     return run
 
@@ -160,8 +216,8 @@ def u_order_lemma(I):
 UNITS = [
     Unit('GroupLibrary.Update', (LIB, 'GroupLibrary.Update'), C15.u_update_frame),
     Unit('GroupLibrary.Update[two uncertainty blocks]', (LIB, 'GroupLibrary.Update'), u_update_two_uq),
-    Unit('GroupLibrary._do_load[groups loop: duplicate spellings]', (LIB, 'GroupLibrary._do_load'), u_read_groups('groups')),
-    Unit('GroupLibrary._do_load[other_descriptors loop: duplicates]', (LIB, 'GroupLibrary._do_load'), u_read_groups('descriptors')),
+    Unit('GroupLibrary._do_load[groups loop: duplicate spellings]', (LIB, 'GroupLibrary._do_load'), u_read_groups('groups'), replay_empty_entry),
+    Unit('GroupLibrary._do_load[other_descriptors loop: duplicates]', (LIB, 'GroupLibrary._do_load'), u_read_groups('descriptors'), replay_empty_entry),
     Unit('ThermochemIncomplete.copy', ('pgradd/ThermoChem/incomplete.py', 'ThermochemIncomplete.copy'), u_copy),
     Unit('lemma:include-order-and-nesting', None, u_order_lemma, kind='lemma'),
 ]
